@@ -32,6 +32,8 @@ func RunEnum(run *kernel.Run, prop string, shard int) {
 	run.Res.Cfg["enum_total_cases"] = len(cases)
 	run.Res.Cfg["enum_shards"] = EnumShards
 	n := 0
+	distinct := map[string]bool{}
+	nontrivial := 0
 	for i, c := range cases {
 		if i%EnumShards != shard%EnumShards {
 			continue
@@ -41,8 +43,17 @@ func RunEnum(run *kernel.Run, prop string, shard int) {
 		w.events, w.byR, w.byK, w.byTriple = nil, map[string]int{}, map[string]int{}, map[string]int{}
 		w.schs = nil
 		w.r.Note("case %d %s", i, c.name)
+		f0 := run.FaultTotal()
+		run.SubBegin()
 		c.run(i)
+		d := run.SubEnd()
+		if !distinct[d] && run.FaultTotal() > f0 {
+			nontrivial++
+		}
+		distinct[d] = true
 	}
+	run.Res.Cfg["enum_distinct_case_digests"] = len(distinct)
+	run.Res.Cfg["enum_distinct_nontrivial_cases"] = nontrivial
 	run.Res.Ops = n
 	run.Res.Steps = n
 }
